@@ -81,6 +81,10 @@ Proof.
 Qed.
 
 (* ---- rendering: AND/OR/XOR chains of one operator render flat, so re-association keeps the text ---- *)
+Section Rendering.
+Variable wns : bool.
+Notation rc := (rc wns).
+Notation render_stmt := (render_stmt wns).
 Lemma append_assoc' (a b c : string) : (a ++ b) ++ c = a ++ (b ++ c).
 Proof. induction a; cbn; congruence. Qed.
 Lemma bop_eqb_refl op : bop_eqb op op = true.
@@ -135,14 +139,17 @@ Proof.
   - destruct (fold_left (Cplx BAnd) xs x) eqn:F; try discriminate; unfold add_filter, cand; rewrite cbin_nonempty; auto.
 Qed.
 
+End Rendering.
+
 (* ---- renderability: no Empty ever ends up inside a stored filter ---- *)
 Fixpoint clean (c : crit) : bool :=
-  match c with Empty => false | Atom _ => true | Cplx _ l r => clean l && clean r | Not t => clean t end.
+  match c with Empty => false | Atom _ | AtomT _ _ _ => true | Cplx _ l r => clean l && clean r | Not t => clean t end.
 Definition wf (c : crit) : bool := is_empty c || clean c.
 
-Lemma clean_renders : forall c sub, clean c = true -> exists s, rc sub c = Some s.
+Lemma clean_renders wns : forall c sub, clean c = true -> exists s, rc wns sub c = Some s.
 Proof.
-  induction c as [|s|op l IHl r IHr|t IHt]; intros sub H; cbn in *; try discriminate.
+  induction c as [|s|p n f|op l IHl r IHr|t IHt]; intros sub H; cbn in *; try discriminate.
+  - eauto.
   - eauto.
   - apply andb_prop in H as [Hl Hr].
     destruct (IHl (needs_brackets op l) Hl) as [a ->], (IHr (needs_brackets op r) Hr) as [b ->]. eauto.
@@ -175,10 +182,42 @@ Proof.
   apply andb_prop in H as [Hc Hcs]. apply IH; auto using add_filter_ok.
 Qed.
 
-Lemma stmt_renders w h : slot_ok w = true -> slot_ok h = true -> exists s, render_stmt w h = Some s.
+Lemma stmt_renders wns head w h : slot_ok w = true -> slot_ok h = true -> exists s, render_stmt_h wns head w h = Some s.
 Proof.
-  intros Hw Hh. unfold render_stmt.
+  intros Hw Hh. unfold render_stmt_h.
   destruct w as [x|], h as [y|]; cbn in *;
-  try (destruct (clean_renders x false Hw) as [a ->]); try (destruct (clean_renders y false Hh) as [b ->]);
+  try (destruct (clean_renders wns x false Hw) as [a ->]); try (destruct (clean_renders wns y false Hh) as [b ->]);
   cbn; eauto.
+Qed.
+
+(* ---- the sticky _foreign_table flag: successive where() calls set it exactly when one call with the conjunction does ---- *)
+Lemma has_foreign_fold op : forall cs a, has_foreign (fold_left (Cplx op) cs a) = has_foreign a || existsb has_foreign cs.
+Proof.
+  induction cs as [|c cs IH]; intros a; cbn [fold_left existsb]; [now rewrite orb_false_r|].
+  rewrite IH. cbn [has_foreign]. now rewrite orb_assoc.
+Qed.
+
+Lemma has_foreign_all cs : has_foreign (call_all cs) = existsb has_foreign cs.
+Proof.
+  rewrite call_all_chain. unfold chain.
+  assert (E : existsb has_foreign cs = existsb has_foreign (nonempty cs)).
+  { unfold nonempty. induction cs as [|c cs IH]; cbn; auto. destruct c; cbn; auto; rewrite IH; reflexivity. }
+  rewrite E. destruct (nonempty cs) as [|x xs]; [reflexivity|]. rewrite has_foreign_fold. reflexivity.
+Qed.
+
+Lemma add_where_fold : forall cs st,
+  fold_left add_where cs st = (fold_left add_filter cs (fst st), snd st || existsb has_foreign cs).
+Proof.
+  induction cs as [|c cs IH]; intros [w f]; cbn [fold_left existsb fst snd]; [now rewrite orb_false_r|].
+  rewrite IH. destruct c; cbn [add_where add_filter fst snd has_foreign orb]; f_equal;
+  repeat match goal with |- context [?x || false] => rewrite (orb_false_r x) end; rewrite <- ?orb_assoc; reflexivity.
+Qed.
+
+(* flag after several where() calls = flag after one call with Criterion.all of them *)
+Lemma where_flag cs f : snd (fold_left add_where cs (None, f)) = snd (add_where (None, f) (call_all cs)).
+Proof.
+  rewrite add_where_fold. cbn [snd]. destruct (call_all cs) eqn:E; cbn [add_where snd];
+  rewrite <- ?E, ?has_foreign_all; auto.
+  (* call_all cs = Empty: no member mentions a foreign table *)
+  pose proof (has_foreign_all cs) as H. rewrite E in H. cbn in H. rewrite <- H. now rewrite orb_false_r.
 Qed.
